@@ -3,7 +3,9 @@
    is FALSE of the model of src/fs/iwfsmfile.c as it is (C11_tree_is_runs_refuted, witness replayed on the real code by
    corpus/C11/lfbk-stale-cache.txt) and is proved for the model of the code after fixes/fsm-lfbk.diff
    (C11_tree_is_runs_partial; _partial: histories in which the bitmap does not grow/move, see Properties_C10.v).
-   Not proved: trim_to_last_used, clear_is_init (both go through _fsm_init_lw) - checked by T2 and the oracle only. *)
+   The relocation step itself is proved (C11_relocation_keeps_runs, C11_resize_keeps_runs); what is missing for the full statement
+   is their composition through the retry loops of _fsm_blk_allocate_lw, _fsm_trim_tail_lw and _fsm_clear (first-time layout).
+   Not proved: trim_to_last_used, clear_is_init - checked by T2 and the oracle only. *)
 Require Import ZArith List Bool. Require Import IW.Lib.CInt IW.Gen.Facts IW.FS.Bits IW.FS.Bits_proofs IW.FS.Fsm IW.FS.Fsm_proofs.
 Import ListNotations. Local Open Scope Z_scope.
 
@@ -47,6 +49,27 @@ Theorem C11_reopen_same : forall s st mm, len_z (bm s) = nbits s -> nbits s <= F
   (forall o n, In (n, o) (tree (reopen s st mm)) <-> is_run (bm s) o n).
 Proof. exact reopen_same. Qed.
 Print Assumptions C11_reopen_same.
+
+(* _fsm_init_lw moving the bitmap (reload of the tree from the new bitmap, release of the old bitmap area) and
+   _fsm_resize_fsm_bitmap_lw (new area carved out of the free space or put behind the old coverage) keep the invariant;
+   code after fixes/fsm-lfbk.diff.  [BmArea]: the allocator's own area is inside the bitmap and marked allocated. *)
+Theorem C11_relocation_keeps_runs : forall s nbmoff nbmlen, Inv s -> fx_lfbk (vr s) = true -> 0 <= bpow s ->
+  bmlen s <> 0 -> 0 <= nbmoff -> 0 <= bmoff s -> 0 <= bmlen s ->
+  let ob := shr (bmoff s) (bpow s) in let ol := shr (bmlen s) (bpow s) in
+  let nb := shr nbmoff (bpow s) in let nl := shr nbmlen (bpow s) in
+  0 < ol -> ob + ol <= nbits s ->
+  (forall i, ob <= i < ob + ol -> getb (bm s) i = true) ->
+  (forall i, nb <= i < nb + nl -> i < nbits s -> getb (bm s) i = true) ->
+  nbmlen * 8 <= FSM_BKEY_MAX ->
+  init_outcome s nbmoff nbmlen (init_lw s nbmoff nbmlen).
+Proof. exact init_lw_reloc. Qed.
+Print Assumptions C11_relocation_keeps_runs.
+
+Theorem C11_resize_keeps_runs : forall s size, Inv s -> WF s -> fx_lfbk (vr s) = true -> BmArea s ->
+  0 <= size < 2 ^ 62 -> IW_ROUNDUP size (aunit s) * 8 <= FSM_BKEY_MAX ->
+  resize_outcome s (resize_fsm_bitmap s size).
+Proof. exact resize_keeps_inv. Qed.
+Print Assumptions C11_resize_keeps_runs.
 
 (* the two bit scans return the nearest set bit inside their window *)
 Theorem C11_find_next_spec : forall l off max, 0 <= off -> max <= len_z l ->
